@@ -284,11 +284,11 @@ func evalRealX(c realCase) (vs []viol, engineErr string, outcome string) {
 					outO = append(outO, l)
 				}
 			}
-			// (evaluated only when the messages of that stream were right: otherwise it is the same failure seen twice)
-			if cl := classify(outO, wantO, len(wo) > 0 && wo[len(wo)-1] != '\n'); cl != "" && okO {
+			// (evaluated only when the messages of both streams were right: otherwise it is the same failure seen twice, and pieces of a broken line cannot be attributed to a stream)
+			if cl := classify(outO, wantO, len(wo) > 0 && wo[len(wo)-1] != '\n'); cl != "" && okO && okE {
 				add("stdout", "output-string:"+cl, wantO, outO, "")
 			}
-			if cl := classify(outE, wantE, len(we) > 0 && we[len(we)-1] != '\n'); cl != "" && okE {
+			if cl := classify(outE, wantE, len(we) > 0 && we[len(we)-1] != '\n'); cl != "" && okO && okE {
 				add("stderr", "output-string:"+cl, wantE, outE, "")
 			}
 		}
@@ -354,7 +354,7 @@ func realCases(thorough bool) ([]realCase, realBound) {
 	}
 
 	// script family: every string over {a,b,\n}, every composition into write(2) calls, with and without pauses
-	b.ScriptSymbols = 3
+	b.ScriptSymbols = 4
 	if thorough {
 		b.ScriptSymbols = 5
 	}
